@@ -116,11 +116,36 @@ func (p *frame) toBytes() []byte {
 	)
 }
 
+// frameHeaderLen and initiateFrameHeaderLen are the lengths of the fixed
+// headers that precede the data of a frame and of an initiate frame.
+const (
+	frameHeaderLen         = 12
+	initiateFrameHeaderLen = 10
+)
+
+// fromBytes decodes one datagram. b must be exactly the bytes received: a
+// datagram shorter than its header, or whose length field claims more data
+// than it carries, is rejected instead of being read past its end.
 func fromBytes(b []byte) (*frame, error) {
+	if len(b) < initiateFrameHeaderLen {
+		return nil, errMalformedFrame
+	}
+	flags := metaToFlags(b[1])
 	dataLength := binary.BigEndian.Uint16(b[2:4])
+	if flags.REQ || flags.RESP {
+		// Initiate frames have a shorter header. They are re-parsed by
+		// fromInitiateBytes from this frame's re-encoding, so keep the
+		// generic layout and pad the two bytes the short header lacks.
+		if initiateFrameHeaderLen+int(dataLength) > len(b) {
+			return nil, errMalformedFrame
+		}
+		b = append(append(make([]byte, 0, len(b)+2), b...), 0, 0)
+	} else if frameHeaderLen+int(dataLength) > len(b) {
+		return nil, errMalformedFrame
+	}
 	return &frame{
 		tubeID:     b[0],
-		flags:      metaToFlags(b[1]),
+		flags:      flags,
 		dataLength: dataLength,
 		data:       append([]byte(nil), b[12:12+dataLength]...),
 		ackNo:      binary.BigEndian.Uint32(b[4:8]),
